@@ -239,42 +239,52 @@ def hex4? : List Nat → Option Nat
     if HexDigit a ∧ HexDigit b ∧ HexDigit c ∧ HexDigit d then some (hexNumber [a, b, c, d]) else none
   | _ => none
 
+/-- `\u{ HexDigit+ }` after the `\u{` (argument: the text after the brace): the escape denotes a
+Unicode scalar value written with 1 to `maxEscapeHexDigits` digits. (length of the whole escape, value) -/
+def escapedUnicodeBraced? (rest : List Nat) : Option (Nat × List Nat) :=
+  let n := hexDigitsLen rest
+  if 1 ≤ n ∧ n ≤ maxEscapeHexDigits ∧ (rest.drop n).head? = some 125 ∧ Scalar (hexNumber (rest.take n))
+  then some (n + 4, [hexNumber (rest.take n)]) else none
+
+/-- `\u HexDigit×4` after the `\u` (argument: the text after the `u`): a scalar value, or a lead
+surrogate followed by `\u HexDigit×4` denoting a trail surrogate (one supplementary code point). -/
+def escapedUnicodeFixed? (rest : List Nat) : Option (Nat × List Nat) :=
+  match hex4? rest with
+  | none => none
+  | some code =>
+    if Scalar code then some (6, [code])
+    else if LeadSurrogate code ∧ (rest.drop 4).take 2 = [92, 117] then
+      match hex4? (rest.drop 6) with
+      | some trail =>
+        if TrailSurrogate trail then some (12, [0x10000 + (code - 0xD800) * 0x400 + (trail - 0xDC00)])
+        else none
+      | none => none
+    else none
+
 /-- One `StringCharacter` at the head of the suffix: (length, code points of its value).
 * `SourceCharacter but not " or \ or LineTerminator`
 * `\u{ HexDigit+ }` – must denote a Unicode scalar value
 * `\u HexDigit×4` – a scalar value, or a lead surrogate followed by `\u HexDigit×4` trail surrogate
 * `\ EscapedCharacter` -/
 def stringCharacter? : List Nat → Option (Nat × List Nat)
-  | 92 :: 117 :: 123 :: rest =>
-    let n := hexDigitsLen rest
-    if 1 ≤ n ∧ n ≤ maxEscapeHexDigits ∧ (rest.drop n).head? = some 125 ∧ Scalar (hexNumber (rest.take n))
-    then some (n + 4, [hexNumber (rest.take n)]) else none
-  | 92 :: 117 :: rest =>
-    match hex4? rest with
-    | none => none
-    | some code =>
-      if Scalar code then some (6, [code])
-      else if LeadSurrogate code then
-        match rest.drop 4 with
-        | 92 :: 117 :: rest' =>
-          match hex4? rest' with
-          | some trail =>
-            if TrailSurrogate trail then some (12, [0x10000 + (code - 0xD800) * 0x400 + (trail - 0xDC00)])
-            else none
-          | none => none
-        | _ => none
-      else none
-  | 92 :: c :: _ =>
-    match escapedCharacter? c with
-    | some v => some (2, [v])
-    | none => none
-  | [92] => none
+  | [] => none
   | c :: rest =>
-    if c = 34 ∨ LineTerm c then none
-    else match sourceCharLen (c :: rest) with
+    if c = 92 then
+      match rest with
+      | [] => none
+      | d :: rest1 =>
+        if d = 117 then
+          if rest1.head? = some 123 then escapedUnicodeBraced? rest1.tail
+          else escapedUnicodeFixed? rest1
+        else
+          match escapedCharacter? d with
+          | some v => some (2, [v])
+          | none => none
+    else if c = 34 ∨ LineTerm c then none
+    else
+      match sourceCharLen (c :: rest) with
       | some n => some (n, (c :: rest).take n)
       | none => none
-  | [] => none
 
 /-- `StringCharacter* "` after the opening quote: (length including the closing quote, value).
 `fuel` bounds the number of characters (`|s|` always suffices). -/
@@ -347,10 +357,8 @@ def joinLF : List (List Nat) → List Nat
   | [l] => l
   | l :: rest => l ++ [10] ++ joinLF rest
 
-/-- The specification's `BlockStringValue(rawValue)` algorithm, step by step. -/
-def blockStringValue (raw : List Nat) : List Nat :=
-  -- 1. Let lines be the result of splitting rawValue by LineTerminator.
-  let lines := splitLines raw
+/-- Steps 2–6 of the specification's `BlockStringValue(rawValue)` on the list of lines. -/
+def dedentLines (lines : List (List Nat)) : List (List Nat) :=
   -- 2.–3. commonIndent over all lines but the first that contain a non-WhiteSpace character.
   let commonIndent : Option Nat :=
     lines.tail.foldl
@@ -365,9 +373,13 @@ def blockStringValue (raw : List Nat) : List Nat :=
   -- 5. While the first line contains only WhiteSpace, remove it.
   let lines := lines.dropWhile isBlank
   -- 6. While the last line contains only WhiteSpace, remove it.
-  let lines := (lines.reverse.dropWhile isBlank).reverse
-  -- 7.–8. Join with LF.
-  joinLF lines
+  (lines.reverse.dropWhile isBlank).reverse
+
+/-- The specification's `BlockStringValue(rawValue)` algorithm, step by step. -/
+def blockStringValue (raw : List Nat) : List Nat :=
+  -- 1. Let lines be the result of splitting rawValue by LineTerminator.
+  -- 7.–8. Join the dedented lines with LF.
+  joinLF (dedentLines (splitLines raw))
 
 def blockString? : List Nat → Option Match
   | 34 :: 34 :: 34 :: rest =>
